@@ -103,6 +103,9 @@ def gen_c13(r, count, tier):
             t["filedata"] = data
         elif t["pstdin"] == "data":
             t["data"] = data
+        # detached() only decides whether a drop waits: the wiring, the stderr sink and the status are the same
+        if r.chance(1, 5) and term in ("capture", "join"):
+            t["detached"] = True
         codes = [r.choice([0, 0, 1, 3, 42, 255]) for _ in range(n)]
         t["codes"] = codes
         slow = r.below(n) if r.chance(1, 2) else None      # a stage other than the last that exits late
@@ -164,6 +167,16 @@ def gen_c14(r, count, tier):
                 t["stub"] = [["write 2 200000", "exit 0"]] + [["cat", "exit 0"] for i in range(1, n)]
                 out.append(t)
                 q += 1
+    # a detached first command that simply keeps running: the start failure is reported at once, nobody waits for it
+    q = len(out)
+    for n in (2, 3):
+        for term in ("join", "capture", "stream_stdin", "popen"):
+            t = {"id": "c14-%d" % q, "kind": "pipeline", "n": n, "failk": n - 1, "term": term, "pstdin": "none", "detached": True,
+                 "shape": "left", "pstdout": "none" if term in ("capture",) else "null", "after": "drop", "stderr_to": False, "watchdog": 12,
+                 "prompt_ms": 1500}
+            t["stub"] = [["close 0", "close 1", "sleep 3000", "exit 0"]] + [["cat", "exit 0"] for i in range(1, n)]
+            out.append(t)
+            q += 1
     # an unbounded producer in front: it ends only when the reader of its output is gone -- which it is once the
     # command that cannot be started has dropped the File it was handed (nobody else may hold that pipe's read end)
     q = len(out)
@@ -587,7 +600,7 @@ def judge_c13(chk, s, mline):
             if w and not w[0].strip().endswith("exited:%d" % t["codes"][i]):
                 bad.append("stage %d: wait reported %s, it exited with %d" % (i, w[0].split()[-1], t["codes"][i]))
     z = zombies(s)
-    if term in ("join", "capture", "popen") and z is not None and (z[0] or z[1]):
+    if term in ("join", "capture", "popen") and z is not None and (z[0] or z[1]) and not t.get("detached"):
         bad.append("after the pipeline completed %d zombie(s) and %d running stage(s) remain" % z)
     return bad, tie
 
@@ -605,6 +618,9 @@ def judge_c14(chk, s, mline):
         return bad, tie
     if not res.startswith("err io:2"):
         bad.append("starting the pipeline returned %s, expected the error of the command that cannot be started" % res)
+    ms = out_field(s, "term_ms")
+    if t.get("prompt_ms") and ms is not None and int(ms) > t["prompt_ms"]:
+        bad.append("the start failure was reported only after %s ms: a detached command that is simply still running was waited for" % ms)
     ms = out_field(s, "term_ms")
     if ms is not None and int(ms) > 5000:
         bad.append("the failed start took %s ms" % ms)
